@@ -30,6 +30,28 @@ fn main() {
         }
         "run" if a.len() >= 5 => run_parent(&find(&a[2]), tier(&a[3]), a[4].parse().unwrap_or(1)),
         "shard" if a.len() >= 8 => run_shard(&find(&a[2]), tier(&a[3]), a[4].parse().unwrap_or(1), a[5].parse().unwrap_or(0), a[6].parse().unwrap_or(1), std::path::Path::new(&a[7])),
+        "tsan-selftest" => {
+            // deliberate data race: confirms that the sanitizer build really reports races
+            static mut RACY: u64 = 0;
+            let hs: Vec<_> = (0..2)
+                .map(|_| {
+                    std::thread::spawn(|| {
+                        for _ in 0..100_000 {
+                            unsafe {
+                                let p = std::ptr::addr_of_mut!(RACY);
+                                p.write_volatile(p.read_volatile() + 1);
+                            }
+                        }
+                    })
+                })
+                .collect();
+            for h in hs {
+                let _ = h.join();
+            }
+            println!("selftest done: {}", unsafe { std::ptr::addr_of!(RACY).read_volatile() });
+            0
+        }
+        "stress" if a.len() >= 4 => vh::props::sched_props::stress(a[2].parse().unwrap_or(100), a[3].parse().unwrap_or(1)),
         "replay" if a.len() >= 4 => run_replay(&find(&a[2]), std::path::Path::new(&a[3])),
         _ => usage(),
     };
